@@ -44,13 +44,14 @@ BRINGUP = [0x06, 0x43, 0x06, 0x11]
 
 
 def SIM_CFG(tier):
-    return {"pseeds": 3 if tier == "quick" else 200, "cseeds": 1 if tier == "quick" else 50}
+    return {"pseeds": 3 if tier == "quick" else 200, "cseeds": 4 if tier == "quick" else 50}
 
 
 def run_one(ch, cfg):
     variant = c04.VARIANTS[ch.draw(len(c04.VARIANTS), "variant")]
     pseed = ch.draw(cfg["pseeds"], "policy-seed")
-    d = c04.dry(variant, pseed)
+    cseed = ch.draw(cfg["cseeds"], "content-seed")
+    d = c04.dry(variant, pseed, cseed)
     v1 = variant.startswith("v1.")
     errcode = -2 if v1 else -905
     viol = []
@@ -65,7 +66,7 @@ def run_one(ch, cfg):
     nfollow = 1 + ch.draw(3, "follow-ups")
     script = SCRIPTS[ch.draw(len(SCRIPTS), "reconnect-script")]
     heal = ch.draw(2, "operator-heals") == 0
-    w, rep, exc, xch, req = c04.run_request(variant, pseed, fault=(k, kind))
+    w, rep, exc, xch, req = c04.run_request(variant, pseed, fault=(k, kind), cseed=cseed)
     dev, link = w.device, w.link
     fired = sum(link.stats.faults.values()) > 0
     is_link_failure = not kind.startswith("timeout")
@@ -191,7 +192,7 @@ class _Enum:
                 n = len(c04.dry(v, ps)["steps"])
                 for k in range(n):
                     for fk in range(len(KINDS)):
-                        self.items.append([vi, ps, k, fk])
+                        self.items.append([vi, ps, 0, k, fk])
 
     def __len__(self):
         return len(self.items)
